@@ -485,6 +485,46 @@ func (cs *c20Case) Desc() string {
 	return fmt.Sprintf("case=%d sel=%v viaJSON=%v clusterDir=%v steps=%v", cs.Idx, cs.Init.Sel, cs.Init.ViaJSON, cs.Init.ClusterDir != "", cs.Steps)
 }
 
+func (cs *c20Case) judgedSel(e *c20Env) []string {
+	var out []string
+	for _, k := range cs.Init.Sel {
+		if e.judged[k] {
+			out = append(out, k)
+		}
+	}
+	return out
+}
+
+func c20OpLetters(steps []c20Step) string {
+	b := make([]byte, 0, len(steps))
+	for _, s := range steps {
+		c := s.Op[0]
+		switch s.Op {
+		case "cmtls":
+			c = 't'
+		case "rmcluster":
+			c = 'd'
+		case "router":
+			c = 'o'
+		case "hosts":
+			c = 's'
+		case "inherit":
+			c = 'i'
+		case "extend":
+			c = 'x'
+		case "filedump":
+			c = 'F'
+		case "admin":
+			c = 'A'
+		}
+		if s.Obj != nil && len(s.Obj.Sel) > 0 {
+			c -= 'a' - 'A' // an update that carries key material
+		}
+		b = append(b, c)
+	}
+	return string(b)
+}
+
 type c20Live struct {
 	what string
 	live interface{}
@@ -611,7 +651,7 @@ func (e *c20Env) run(cs *c20Case, withAdmin bool) c20RunResult {
 				code, body := c20Call(ep.Query)
 				n := e.scanAdmin(ep, body, cs.Idx, desc)
 				e.c.Count("admin-responses", 1)
-				e.c.Distinct(fmt.Sprintf("%s|%d|%v|%v|%v|%d|redacted=%d", ep.Kind, code, cs.Init.Sel, cs.Init.ViaJSON, cs.Steps[:si], len(body) > 2, n))
+				e.c.Distinct(fmt.Sprintf("%s|%d|%v|%v|%s|%v|redacted=%d", ep.Kind, code, cs.judgedSel(e), cs.Init.ViaJSON, c20OpLetters(cs.Steps[:si]), len(body) > 2, n))
 			}
 		}
 	}
@@ -785,7 +825,7 @@ func c20Scan(c *lab.Ctx) {
 	cluJ := c20SortedKinds(e.cluK, isJudged)
 	extAll := c20SortedKinds(e.extK, func(c20Kind) bool { return true })
 	allInit := append(append([]string{}, judgedInit...), rawInit...)
-	for i := 0; i < c.Pick(400, 4000); i++ {
+	for i := 0; i < c.Pick(400, 12000); i++ {
 		cs := &c20Case{Idx: len(cases)}
 		cs.Init = c20InitSpec{Seed: rng.Uint64(), Nonce: c20Nonce(rng), ViaJSON: rng.Chance(1, 3)}
 		cs.Init.Sel = c20Subset(rng, allInit, 1, 2)
@@ -858,7 +898,10 @@ func c20Race(c *lab.Ctx) {
 	srv := httptest.NewServer(http.HandlerFunc(adminserver.ConfigDump))
 	defer srv.Close()
 	rounds := c.Pick(4, 12)
-	sizes := []int{24, 60, 8, 100}
+	sizes := []int{24, 60, 8, 40}
+	if c.Thorough() {
+		sizes = []int{24, 60, 8, 100, 40, 16, 8, 150}
+	}
 	for round := 0; round < rounds; round++ {
 		big := sizes[round%len(sizes)]
 		withWriter := round%4 == 2
@@ -1020,6 +1063,10 @@ func c20Race(c *lab.Ctx) {
 		}
 	}
 	c.Count("hook-reached:"+c20Hook, int64(verifhook.Count(c20Hook)))
+	if verifhook.Count(c20Hook) > 0 {
+		c.Require("steered admin dump inside transferConfig", c.Counter("steered-admin-dump-inside-transferConfig") > 0,
+			fmt.Sprintf("%d steered, %d timed out", c.Counter("steered-admin-dump-inside-transferConfig"), c.Counter("steered-admin-dump-timeout")))
+	}
 	e.finish()
 	c.Exhaustive(false)
 }
